@@ -22,7 +22,7 @@ import warnings
 import numpy as np
 
 from harness import core
-from props.c07 import snapshot, _mc_module, _violation, choose_containers, ALL_CONTAINERS
+from props.c07 import snapshot, _mc_module, _violation, choose_containers, ALL_CONTAINERS, SMALL_HEAP
 
 SPEC_DIR = os.path.join(core.SPECS, "tpt")
 INVS = ["FTypeOK", "Solvable", "RatOK", "FRatOK",
@@ -150,7 +150,7 @@ def run(ctx):
                                                 Emit="FALSE", EmitF="FALSE", Chains="<- MCChains",
                                                 Lags="<- MCLags", Modes="<- MCModes"))
             scs.append(None)
-            jobs.append(dict(module=mod, cfg=os.path.basename(cfg), cwd=d, workers=1, timeout=1500, coverage=True,
+            jobs.append(dict(module=mod, cfg=os.path.basename(cfg), cwd=d, workers=1, timeout=1500, coverage=True, java_opts=SMALL_HEAP,
                              label="N=%d MaxX=%d 1/16 slice, action coverage" % (sc["N"], sc["MaxX"])))
         for k in range(sc["run"]):
             p = (first + k * max(1, sc["parts"] // sc["run"])) % sc["parts"]
@@ -160,7 +160,7 @@ def run(ctx):
                                                 Emit="FALSE", EmitF="TRUE", Chains="<- MCChains",
                                                 Lags="<- MCLags", Modes="<- MCModes"))
             scs.append(sc)
-            jobs.append(dict(module=mod, cfg=os.path.basename(cfg), cwd=d, workers=1, timeout=3600,
+            jobs.append(dict(module=mod, cfg=os.path.basename(cfg), cwd=d, workers=1, timeout=3600, java_opts=SMALL_HEAP,
                              label="N=%d MaxX=%d part %d/%d check+emit" % (sc["N"], sc["MaxX"], p, sc["parts"])))
         if sc["run"] < sc["parts"]:
             ctx.exhaustive = False
